@@ -314,6 +314,9 @@ func signedValue(t gen.ElemType, r *prng.Rand, s int) float64 {
 		return 0
 	}
 	v := math.Abs(t.NonZero(r))
+	if r.Intn(4) == 0 {
+		v = 1 // exponent / factor 1 is a branch point of its own (Pow)
+	}
 	return float64(s) * v
 }
 
